@@ -564,7 +564,7 @@ def robust_map(fn, tasks, workers, mp_context, crash_result):
     results = [None] * len(tasks)
     done = [False] * len(tasks)
     pending = list(range(len(tasks)))
-    for attempt in range(2):
+    for attempt in range(3):
         if not pending:
             break
         with cf.ProcessPoolExecutor(max_workers=min(workers, max(1, len(pending))), mp_context=mp_context) as ex:
@@ -576,16 +576,18 @@ def robust_map(fn, tasks, workers, mp_context, crash_result):
                 except BrokenProcessPool:
                     pass
         pending = [i for i in pending if not done[i]]
-    if pending:
-        def alone(i):
+    # what is still open runs one task at a time, each in a pool of its own, from THIS thread (forking from a
+    # multi-threaded parent is itself unsafe), up to three times
+    for i in pending:
+        r = None
+        for _ in range(3):
             try:
                 with cf.ProcessPoolExecutor(max_workers=1, mp_context=mp_context) as ex1:
-                    return ex1.submit(fn, tasks[i]).result()
+                    r = ex1.submit(fn, tasks[i]).result()
+                break
             except BrokenProcessPool:
-                return crash_result(tasks[i])
-        with cf.ThreadPoolExecutor(max_workers=min(workers, len(pending))) as tp:
-            for i, r in zip(pending, tp.map(alone, pending)):
-                results[i] = r
+                r = None
+        results[i] = r if r is not None else crash_result(tasks[i])
     return results
 
 
